@@ -54,6 +54,12 @@ type pathEnd struct{ reason string }
 type targetPanic struct {
 	v   Value
 	msg string
+	pos string
+	fn  string
+}
+
+func (ex *Exec) newPanic(v Value, msg string) targetPanic {
+	return targetPanic{v: v, msg: msg, pos: ex.pos(), fn: ex.fnName()}
 }
 
 type deferred struct {
@@ -104,6 +110,7 @@ type Exec struct {
 	concPos  int
 	isConcrete bool
 	initRoot   *ssa.Function
+	overridePos, overrideFn string
 }
 
 func (ex *Exec) pos() string {
@@ -331,6 +338,9 @@ func (ex *Exec) require(cond *Term, kind, msg string) {
 		return
 	}
 	v := Violation{Kind: kind, Msg: msg, Pos: ex.pos(), Fn: ex.fnName()}
+	if ex.overridePos != "" {
+		v.Pos, v.Fn = ex.overridePos, ex.overrideFn
+	}
 	for _, nv := range ex.ndVars {
 		v.Inputs = append(v.Inputs, model[nv.Name])
 		v.Names = append(v.Names, nv.Name)
@@ -868,7 +878,7 @@ func (ex *Exec) visit(fr *frame, instr ssa.Instruction) bool {
 		ex.runDefers(fr)
 	case *ssa.Panic:
 		v := ex.get(fr, in.X)
-		panic(targetPanic{v: v, msg: ex.panicString(v)})
+		panic(ex.newPanic(v, ex.panicString(v)))
 	case *ssa.Send:
 		ch := ex.get(fr, in.Chan).(*Chan)
 		if ch == nil {
@@ -906,8 +916,11 @@ func (ex *Exec) visit(fr *frame, instr ssa.Instruction) bool {
 		*c = ex.zero(deref(in.Type()))
 		fr.env[in] = Ptr{c}
 	case *ssa.MakeSlice:
-		ln := ex.get(fr, in.Len).(*Term)
-		cp := ex.get(fr, in.Cap).(*Term)
+		ln := ex.idxTerm(ex.get(fr, in.Len), in.Len.Type())
+		cp := ln
+		if in.Cap != in.Len {
+			cp = ex.idxTerm(ex.get(fr, in.Cap), in.Cap.Type())
+		}
 		zero := st.Const(ln.W, 0)
 		ex.require(st.Sle(zero, ln), "makeslice", "makeslice: len out of range (negative)")
 		n := ex.concretize(ln, 0, ex.eng.MaxAlloc, "make([]T, n) with n > MaxAlloc")
@@ -965,7 +978,7 @@ func (ex *Exec) visit(fr *frame, instr ssa.Instruction) bool {
 	case *ssa.MapUpdate:
 		m := ex.get(fr, in.Map).(*Map)
 		if m == nil {
-			panic(targetPanic{msg: "assignment to entry in nil map"})
+			panic(ex.newPanic(nil, "assignment to entry in nil map"))
 		}
 		ex.mapInsert(m, ex.get(fr, in.Key), ex.get(fr, in.Value))
 	case *ssa.TypeAssert:
@@ -1230,7 +1243,7 @@ func (ex *Exec) typeAssert(in *ssa.TypeAssert, x Value) Value {
 		if itf.T != nil {
 			tn = itf.T.String()
 		}
-		panic(targetPanic{msg: fmt.Sprintf("interface conversion: interface is %s, not %s", tn, in.AssertedType)})
+		panic(ex.newPanic(nil, fmt.Sprintf("interface conversion: interface is %s, not %s", tn, in.AssertedType)))
 	}
 	return v
 }
@@ -1344,12 +1357,10 @@ func (it *strIter) next(ex *Exec) Value {
 		it.i++
 		return Tuple{st.True, st.Const(64, uint64(idx)), st.ZExt(b, 32)}
 	}
-	// non-ASCII lead byte: run the real decoder
-	fn := ex.eng.lookupFunc("unicode/utf8", "DecodeRuneInString")
-	res := ex.callSSA(fn, []Value{mkStr(it.s.Sym[idx:])}, nil, nil).(Tuple)
-	size := ex.concretize(res[1].(*Term), 1, 4, "rune size")
-	it.i += int(size)
-	return Tuple{st.True, st.Const(64, uint64(idx)), res[0]}
+	// non-ASCII lead byte: exact range-based decoder (see utf8.go)
+	r, size := ex.decodeRuneSym(it.s.Sym[idx:])
+	it.i += size
+	return Tuple{st.True, st.Const(64, uint64(idx)), r}
 }
 
 func decodeRune(s string) (rune, int) {
